@@ -15,7 +15,8 @@ ASSUME = {
             "recorder machines (ECMAScript) append every message to bindings.log and emit bindings.table[id]",
             "a 'to' that is neither a string nor a list is treated as unrouted (weakest reading)",
             "mcrew host: recorder machines a, b, c with an acyclic emission graph; every Process invocation observed at the process-locked hook; quiescence = no invocation for 60 ms; cmd/mdb's Host.Process is driven by a second overlay driver (routing only: it does not re-process emissions)"],
-    "C15": ["shadow store = fold of Result.Changed exactly as sio.Stdio folds it; records pass through JSON before a crew is booted from them",
+    "C15": ["system stage: timers are requested with in=1ms and their goroutines are held at the verif hook timer-wait, so a timer fires exactly when the behaviour says; crash = the crew is dropped between two processing steps and a new one is booted from the store (records pass through JSON)",
+            "shadow store = fold of Result.Changed exactly as sio.Stdio folds it; records pass through JSON before a crew is booted from them",
             "a store without a timers record denotes the timers machine's default state; a record without state denotes start/{}",
             "restart equivalence claimed for commuting crews (recorder machines commute); outputs compared as bags of batches per message"],
 }
@@ -28,6 +29,10 @@ def run(pid, tier, seed, replay):
     rep = vlib.Report(pid)
     key, mode, nq, nt = PLAN[pid]
     out = os.path.join(wd, mode + ".ndjson")
+    if replay and json.load(open(replay)).get("kind") == "system":
+        import system_checks
+        system_checks.replay(pid, wd, rep, json.load(open(replay)))
+        return rep.finish()
     if replay:
         vlib.run([drv, "replay", replay, out], timeout=600)
     else:
@@ -134,6 +139,14 @@ def run(pid, tier, seed, replay):
         t["lines"] += t3["lines"]
         t["distinct"] += t3["distinct"]
         t["generated"] += t3["generated"]
+    sysinfo = None
+    if pid == "C15" and not replay:
+        # the whole system as one state machine (captain, timers machine, store, firings, crash/restart)
+        import system_checks
+        sysinfo = system_checks.stage(pid, tier, seed, wd, rep)
+        extra_stats.update(sysinfo["stats"])
+        for k in ("lines", "distinct", "generated"):
+            t[k] += sysinfo[k]
     rc = rep.finish()
     stats.update(extra_stats)
     first = json.loads(open(out).readline())
